@@ -439,6 +439,26 @@ def run_impl(case):
             out["grid_nsq"] = grid.norm(squared=True, method_integration=meth).tolist()
             tt = np.array(fl(t))
             out["grid_ip"] = [[float(_inner_product(grid.values[i], grid.values[j], tt, method=meth)) for j in range(len(C))] for i in range(len(C))]
+            if len(t) >= 3:
+                # a history on ONE object (and on a subset sharing its basis): the other quadrature rule is asked for in
+                # between; the rule named in a call decides its result, not what was computed before
+                other = "simpson" if meth == "trapz" else "trapz"
+                with np.errstate(all="ignore"):
+                    out["nsq_other_used"] = np.asarray(bfd.norm(squared=True, method_integration=other)).tolist()
+                    bfd.inner_product(method_integration=other)
+                    if case.get("family"):
+                        fresh_basis = Basis(name=case["family"], n_functions=case["K"], argvals=DenseArgvals({"input_dim_0": np.array(fl(t))}),
+                                            is_normalized=case["is_normalized"], **case.get("kw", {}))
+                    else:
+                        fresh_basis = Basis(name="given", argvals=DenseArgvals({"input_dim_0": np.array(fl(t))}), values=DenseValues(B))
+                    out["nsq_other_fresh"] = np.asarray(BasisFunctionalData(fresh_basis, C).norm(squared=True, method_integration=other)).tolist()
+                out["nsq_after"] = np.asarray(bfd.norm(squared=True, method_integration=meth)).tolist()
+                out["G_after"] = np.asarray(bfd.inner_product(method_integration=meth)).tolist()
+                sub = bfd[0]
+                out["sub_nsq"] = np.asarray(sub.norm(squared=True, method_integration=meth)).tolist()
+                with np.errstate(all="ignore"):
+                    sub.norm(squared=True, method_integration=other)
+                out["nsq_after_sub"] = np.asarray(bfd.norm(squared=True, method_integration=meth)).tolist()
         except ModuleNotFoundError:
             # Gram matrix of the basis failed the Cholesky test; the fallback needs statsmodels (absent)
             out["error"] = "cholesky-fallback"
@@ -785,6 +805,19 @@ def oracle(case, impl):
             bad("symmetric", "coefficient-space Gram matrix not symmetric", "BasisFunctionalData.inner_product")
         if np.linalg.eigvalsh((G + G.T) / 2).min() < -1e-8 * sc:
             bad("psd", "coefficient-space Gram matrix not PSD", "BasisFunctionalData.inner_product")
+        if "nsq_after" in impl:
+            m_ = case.get("method", "trapz")
+            if not np.allclose(impl["nsq_other_used"], impl["nsq_other_fresh"], rtol=1e-12, atol=1e-12 * sc, equal_nan=True):
+                bad("rule_decides", f"norm under the other rule on an object already used with {m_!r} differs from the same call on a freshly built object "
+                    "(a quantity computed under one rule is reused under another)", "BasisFunctionalData.norm")
+            if not np.allclose(impl["nsq_after"], impl["nsq"], rtol=1e-12, atol=1e-12 * sc, equal_nan=True):
+                bad("rule_decides", f"norm(method_integration={m_!r}) changed after the other rule was asked for on the same object", "BasisFunctionalData.norm")
+            if not np.allclose(impl["G_after"], G, rtol=1e-12, atol=1e-12 * sc, equal_nan=True):
+                bad("rule_decides", f"inner_product(method_integration={m_!r}) changed after the other rule was asked for on the same object", "BasisFunctionalData.inner_product")
+            if not np.allclose(impl["sub_nsq"], impl["nsq"][:1], rtol=1e-12, atol=1e-12 * sc, equal_nan=True):
+                bad("rule_decides", f"norm of a subset (sharing the basis) under {m_!r} differs from the parent's after the other rule was used on the parent", "BasisFunctionalData.norm")
+            if not np.allclose(impl["nsq_after_sub"], impl["nsq"], rtol=1e-12, atol=1e-12 * sc, equal_nan=True):
+                bad("rule_decides", f"norm under {m_!r} changed after the other rule was used on a subset sharing the basis", "BasisFunctionalData.norm")
     elif kind == "basis2d" and "error" not in impl and np.all(np.isfinite(np.array(impl["G"], dtype=float))):
         G, BG = np.array(impl["G"], dtype=float), np.array(impl["BG"], dtype=float)
         l1 = max(sum(abs(float(F(x))) for x in r) for r in case["C"])
